@@ -17,7 +17,14 @@ C03 validates the layout itself, this check only reads it):
 Signals are observed through a plain function listener plus 0..3 generated listeners connected in the
 other ways urwid.connect_signal documents (callback kind, weak_args incl. alive-but-falsy objects,
 user_args incl. falsy values, deprecated user_arg, handler return value): each listener must see the
-same change/postchange chain and receive the documented arguments.
+same change/postchange chain and receive the documented arguments.  One generated listener in three changes the
+handler list from inside its handler (disconnects itself or another listener, by key or by arguments, or connects
+a further listener); when there are generated listeners a second plain function is connected after them.  Every
+listener is told about every modification while it is connected, whatever its neighbours do.
+Two edit cases in five are preceded by the same widget description (for bytes: the same bytes) being shown and
+driven with the same keys under another encoding in the same process, results ignored; the case proper must not
+depend on it.  The rows the widget works with must be rows of the displayed text under the active encoding
+(clause display-consistent).
 Readings deliberately taken on the weak side (see comments at the place of use):
   * 'tab' with allow_tab: any 1..8 spaces (the docs say "1-8 spaces", not how many);
   * the preferred column after a click is either the clicked column or the cursor column;
@@ -68,8 +75,22 @@ RULE = (
     "1..2 values from 0, '', [], False, 0.0, 1, 'x', [0], True; optionally the caller changes its list after "
     "connecting) x the deprecated user_arg (not passed or one of the same values) x handler return value; every "
     "listener must record the same change/postchange chain as the plain one and be called with the arguments "
-    "connect_signal() documents. Every step is compared with the reference editor / display map / "
-    "signal chain. Non-trivial (edit): caption+text need >= 2 display rows or contain a double-width/combining "
+    "connect_signal() documents. One generated listener in three acts on the handler list from inside its 1st..3rd "
+    "call (counted per signal): it disconnects its own handler for that signal (a one-shot listener) or that of "
+    "another generated listener, with the key connect_signal() returned or with disconnect_signal() and the "
+    "connect arguments, or connects one more plain listener to both signals; with generated listeners present a "
+    "second plain function is connected after them. Every listener that is connected before a step and not "
+    "disconnected during it must record the full chain of that step; a listener that disconnects itself in its "
+    "n-th call records exactly the first n modifications; a handler is never called in a step after the one in "
+    "which it was disconnected; nothing is asserted about a listener in the step during which another "
+    "listener's handler disconnects it or in which it is connected. "
+    "Two edit cases in five have a prehistory: before the widget under test is built, the same caption/text "
+    "(bytes cases: the same bytes), options and width are shown, and the same keys and clicks delivered, under "
+    "another of the six encodings in the same process (nothing asserted there, exceptions ignored, the old widget "
+    "and its canvases stay referenced); then set_encoding() switches to the case's encoding. "
+    "Every step is compared with the reference editor / display map / "
+    "signal chain; every text segment of the widget's layout must start and end between characters of the "
+    "displayed text and be as wide as those characters under the active encoding. Non-trivial (edit): caption+text need >= 2 display rows or contain a double-width/combining "
     "character, and the history has an up/down move or inserts/deletes while such a character is present; "
     "(numeric): the history has a key outside the ASCII alphabet of the widget or a '-' and >= 3 keys."
 )
@@ -78,14 +99,21 @@ ASSUMPTIONS = [
     "double-byte encoding a byte >= 0x81 followed by a byte >= 0x40 is one two-column character (texts are built "
     "from whole encoded characters, so no stray lead byte ever precedes an ASCII byte)",
     "Python's gbk / big5 / uhc (cp949) codecs define which characters exist in those encodings",
-    "the widget's own layout structure (get_line_translation) is taken as the display; C03 checks the layout",
+    "the widget's own layout structure (get_line_translation) is taken as the display; C03 checks the layout, this "
+    "check only requires that its text segments lie between characters and have the width of their characters",
     "keys are delivered as str (urwid's input layer always produces str keys), one code point per printable key",
     "the widget is rendered with focus=True between keys (an Edit only receives keys while in focus)",
     "the width is constant within one case",
-    "listeners are connected once, before the first key, with urwid.connect_signal as documented (weak_args / "
-    "user_args as keywords, user_arg positionally); the harness keeps every weak argument alive for the whole case, "
+    "listeners are connected before the first key (or, one plain function, from inside a 'change' handler) with "
+    "urwid.connect_signal as documented (weak_args / user_args as keywords, user_arg positionally) and are "
+    "disconnected, if at all, from inside a handler with disconnect_signal_by_key() or disconnect_signal() and the "
+    "connect arguments; the harness keeps every weak argument alive for the whole case, "
     "so 'the handler is dropped when a weak argument dies' never applies; delivery order between listeners is not "
-    "asserted",
+    "asserted; handlers never modify the widget",
+    "whether a handler connected or disconnected by another handler while a signal is being delivered takes part in "
+    "that delivery is not stated anywhere: not asserted (from the next step on it is)",
+    "urwid.set_encoding() may be called between the life of one widget and the creation of another (widgets and "
+    "canvases created before the switch are not used after it; the canvas cache is cleared at the switch)",
 ]
 
 NAV = ["left", "right", "up", "down", "home", "end"]
@@ -170,8 +198,14 @@ class Entry(tuple):
 
 def build_map(trans, disp, mode):
     """Display map from a layout structure: rows of Entry.  Columns of characters inside a text
-    segment come from the width oracle; segment widths themselves are taken from the layout."""
+    segment come from the width oracle; segment widths themselves are taken from the layout.
+
+    The rows the widget works with have to be rows of *this* text under the *active* encoding: a text segment
+    starts and ends between characters and is as wide as the characters it shows.  Otherwise "the cell of the
+    character at the cursor offset" and "display row" mean nothing (clause display-consistent); this is what a
+    layout remembered from another encoding, or from another text, looks like."""
     rows = []
+    whole = set(bounds(disp, mode))
     for line in trans:
         x = 0
         row = []
@@ -182,13 +216,17 @@ def build_map(trans, disp, mode):
                     row.append(Entry((x, seg[1], 0, "h", seg[1])))
             elif isinstance(seg[2], int):
                 offs, end = seg[1], seg[2]
+                if offs not in whole or end not in whole:
+                    raise Violation("display-consistent", f"the widget's layout {trans!r} has a text segment "
+                                    f"{tuple(seg)!r} that starts or ends inside a multi-byte character of {disp!r}")
                 cx = x
                 for s, e, w in widths.chars(disp[offs:end], mode):
                     row.append(Entry((cx, offs + s, w, "c", offs + e)))
                     cx += w
                 if cx != x + sc:
-                    # the layout measures this text differently from the width oracle: C03/C11 matter
-                    raise Discard()
+                    raise Violation("display-consistent", f"the widget's layout {trans!r} gives the text segment "
+                                    f"{tuple(seg)!r} {sc} column(s), the characters {disp[offs:end]!r} it shows "
+                                    f"occupy {cx - x} under the active encoding")
             x += sc
         rows.append(row)
     return rows
@@ -311,6 +349,14 @@ def _listener_label(desc):
     if desc["user_arg"] is not None:
         parts.append(f"user_arg={desc['user_arg']!r}")
     parts.append(f"returning {desc.get('returns')!r}")
+    re_ = desc.get("reentry")
+    if re_:
+        if re_["do"] == "connect":
+            parts.append(f"connecting one more listener from inside its call no. {re_['at']}")
+        else:
+            who = "itself" if re_.get("target") is None else f"listener no. {re_['target']} (modulo their number)"
+            parts.append(f"disconnecting {who} ({'by key' if re_['how'] == 'key' else 'disconnect_signal() with the connect arguments'}) "
+                         f"from inside its call no. {re_['at']}")
     return ", ".join(parts)
 
 
@@ -318,19 +364,73 @@ def _same_value(a, b):
     return type(a) is type(b) and a == b
 
 
-def connect_listener(edit, desc, log, keep):
+class LState:
+    """what the harness knows about one listener: its log, how it was connected (to be able to disconnect it the
+    two documented ways), how often each handler ran, and the step at which each handler was disconnected"""
+
+    def __init__(self, label, log, desc=None, born=-2):
+        self.label = label
+        self.log = log
+        self.desc = desc
+        self.born = born  # step during which it was connected (-2: before the first key)
+        self.calls = {"change": 0, "postchange": 0}
+        self.gone = {"change": None, "postchange": None}  # step at which the handler was disconnected
+        self.by = set()  # who disconnected it: 'self' / 'other'
+        self.keys = {}
+        self.cbs = {}
+        self.connect_args = {}
+        # snapshot taken at the start of every step
+        self.was = {"change": True, "postchange": True}
+        self.calls_before = 0
+
+    def begin_step(self):
+        del self.log[:]
+        self.was = {k: self.gone[k] is None for k in self.gone}
+        self.calls_before = self.calls["change"]
+
+
+def disconnect_listener(edit, kind, target, how):
+    """the two documented ways: the key connect_signal() returned, or 'exactly the same' arguments"""
+    if how == "key":
+        urwid.disconnect_signal_by_key(edit, kind, target.keys[kind])
+    else:
+        pos, kwargs = target.connect_args[kind]
+        urwid.disconnect_signal(edit, kind, target.cbs[kind], *pos, **{k: list(v) for k, v in kwargs.items()})
+
+
+def connect_listener(edit, desc, st, keep, world):
     """Connect one handler to 'change' and one to 'postchange' as described by ``desc`` (JSON):
     callback kind, weak_args (names from WEAK_TARGETS), user_args (None = not passed), deprecated
     user_arg (None = not passed, as documented), the value the handler returns.  The handler checks
     the arguments it is called with against the connect_signal() docs - weak_args (the objects
     themselves), then user_args as passed at connect time, then what the widget emits (widget, text),
-    then user_arg - and appends (signal, text argument, edit_text at that moment) to ``log``."""
+    then user_arg - and appends (signal, text argument, edit_text at that moment) to its log.
+
+    ``desc["reentry"]`` (optional) makes the handler change the very handler list that is being walked, from
+    inside its call number ``at`` (counted per signal): disconnect itself or another generated listener (that
+    listener's handler for the same signal), by key or with disconnect_signal() and the connect arguments, or
+    connect one more plain listener to both signals.  ``world``: {"registry": [LState of the generated
+    listeners], "step": current step, "connect_plain": fn(label) -> None}."""
     weak = [WEAK_TARGETS[name]() for name in desc["weak"]]
     uargs = desc["user_args"]
     uarg = desc["user_arg"]
     ret = desc.get("returns")
+    reentry = desc.get("reentry")
     nw, nu = len(weak), len(uargs or [])
-    label = _listener_label(desc)
+    label = st.label
+    log = st.log
+
+    def act(kind):
+        if reentry["do"] == "connect":
+            if kind == "change":
+                world["connect_plain"](f"plain function connected from inside a 'change' handler during step {world['step']}")
+            return
+        reg = world["registry"]
+        target = st if reentry.get("target") is None else reg[reentry["target"] % len(reg)]
+        disconnect_listener(edit, kind, target, reentry["how"])
+        if target.gone[kind] is None:
+            target.gone[kind] = world["step"]
+        target.by.add("self" if target is st else "other")
 
     def receive(kind, args):
         ok = (
@@ -344,6 +444,9 @@ def connect_listener(edit, desc, log, keep):
                             f"the {nw} weak argument(s), then {list(uargs or [])!r}, then (widget, text)"
                             f"{', then ' + repr(uarg) if uarg is not None else ''}")
         log.append((kind, args[nw + nu + 1], edit.edit_text))
+        st.calls[kind] += 1
+        if reentry and st.calls[kind] == reentry["at"]:
+            act(kind)
         return ret
 
     class Holder:
@@ -377,10 +480,14 @@ def connect_listener(edit, desc, log, keep):
         if uargs is not None:
             passed = list(uargs)
             kwargs["user_args"] = passed
+        # "the arguments passed should be exactly the same as those passed to connect_signal()"
+        st.connect_args[kind] = ((uarg,) if uarg is not None else (),
+                                 {k: list(v) for k, v in kwargs.items()})
+        st.cbs[kind] = cb
         if uarg is not None:
-            urwid.connect_signal(edit, kind, cb, uarg, **kwargs)
+            st.keys[kind] = urwid.connect_signal(edit, kind, cb, uarg, **kwargs)
         else:
-            urwid.connect_signal(edit, kind, cb, **kwargs)
+            st.keys[kind] = urwid.connect_signal(edit, kind, cb, **kwargs)
         if passed is not None and desc.get("mutate_after"):
             # the caller goes on using its list: the handler still gets "the user_args passed at connect time"
             passed.insert(0, "added later")
@@ -393,17 +500,34 @@ def drive(edit, spec: Spec, case, mode, mask):
     size = (w,)
     caption = edit.caption
     caplen = len(caption)
-    log = []
-    urwid.connect_signal(edit, "change", lambda _w, new: log.append(("change", new, edit.edit_text)))
-    urwid.connect_signal(edit, "postchange", lambda _w, old: log.append(("postchange", old, edit.edit_text)))
-    # further listeners, each connected in one of the ways connect_signal() documents; every one of them
-    # must be told about every modification exactly like the plain listener above
+    # every listener must be told about every modification while it is connected.  A plain function is connected
+    # first; then the generated listeners, each connected in one of the ways connect_signal() documents, some of
+    # which disconnect themselves / another listener or connect a further one from inside their handler; when
+    # there are generated listeners a second plain function is connected after them (so every generated listener
+    # has an observed neighbour on either side in connection order)
     keep = []  # strong references: the weak arguments stay alive for the whole case
-    logs = [("plain function", log)]
+    world = {"registry": [], "step": -1}
+    listeners = []  # LState of every listener, in connection order
+
+    def connect_plain(label, born=-2):
+        st_ = LState(label, [], None, born)
+        llog = st_.log
+        urwid.connect_signal(edit, "change", lambda _w, new: llog.append(("change", new, edit.edit_text)))
+        urwid.connect_signal(edit, "postchange", lambda _w, old: llog.append(("postchange", old, edit.edit_text)))
+        listeners.append(st_)
+        return st_
+
+    world["connect_plain"] = lambda label: connect_plain(label, world["step"])
+    plain = connect_plain("plain function")
+    log = plain.log
     for desc in case.get("listeners") or []:
-        llog = []
-        connect_listener(edit, desc, llog, keep)
-        logs.append((_listener_label(desc), llog))
+        st_ = LState(_listener_label(desc), [], desc)
+        world["registry"].append(st_)
+        listeners.append(st_)
+    for st_ in world["registry"]:
+        connect_listener(edit, st_.desc, st_, keep, world)
+    if world["registry"]:
+        connect_plain("plain function connected last")
 
     def displayed(text):
         return caption + (mask * len(text) if mask is not None else text)
@@ -469,17 +593,38 @@ def drive(edit, spec: Spec, case, mode, mask):
         return M, cur
 
     def check_signals(i, op, t0, t1):
-        for label, llog in logs:
-            check_chain(i, op, t0, t1, llog, label)
+        check_chain_1(i, op, t0, t1, log)  # the plain listener connected first
+        for st_ in list(listeners)[1:]:
+            check_listener(i, op, t0, t1, st_)
 
-    def check_chain(i, op, t0, t1, log, label):
-        try:
-            check_chain_1(i, op, t0, t1, log)
-        except Violation as v:
-            if label == "plain function":
-                raise
-            raise Violation(v.clause, f"{v.message} [listener connected as {label}; the plain listener saw "
-                            f"{logs[0][1]!r}]") from None
+    def check_listener(i, op, t0, t1, st_):
+        def lfail(clause, msg):
+            raise Violation(clause, f"step {i} op {op!r}: {msg} [listener connected as {st_.label}; the plain listener "
+                            f"saw {log!r}]")
+
+        if st_.born == i:
+            return  # connected during this very step: whether it is told about the emission in progress is not stated
+        for kind, was in st_.was.items():
+            if not was and any(e[0] == kind for e in st_.log):
+                lfail("signal-after-disconnect", f"'{kind}' handler disconnected during step {st_.gone[kind]} was called "
+                      f"again: {st_.log!r}")
+        touched = [k for k in st_.gone if st_.was[k] and st_.gone[k] is not None]
+        if all(st_.was.values()) and not touched:
+            try:
+                check_chain_1(i, op, t0, t1, st_.log)
+            except Violation as v:
+                raise Violation(v.clause, f"{v.message} [listener connected as {st_.label}; the plain listener saw "
+                                f"{log!r}]") from None
+        elif all(st_.was.values()) and len(touched) == 2 and st_.by == {"self"}:
+            # a listener that disconnects its 'change' handler inside its n-th 'change' call and its 'postchange'
+            # handler inside its n-th 'postchange' call has been told about exactly the first n modifications
+            n = st_.desc["reentry"]["at"] - st_.calls_before
+            if st_.log != log[: 2 * n]:
+                lfail("signal-chain", f"a listener that disconnects itself inside its call no. {st_.desc['reentry']['at']} "
+                      f"(it had been called {st_.calls_before} time(s) before this step) recorded {st_.log!r}, expected the "
+                      f"first {n} modification(s) of this step")
+        # otherwise (disconnected by another listener's handler while the signal was being delivered, possibly
+        # half-way): whether it still gets the emission in progress is not stated; nothing more is asserted
 
     def check_chain_1(i, op, t0, t1, log):
         cur = t0
@@ -515,8 +660,9 @@ def drive(edit, spec: Spec, case, mode, mask):
     for i, op in enumerate(case["ops"]):
         t0, p0 = edit.edit_text, edit.edit_pos
         bs = bounds(t0, mode)
-        for _label, llog in logs:
-            del llog[:]
+        world["step"] = i
+        for st_ in listeners:
+            st_.begin_step()
         cx0, cy0 = cur
         complete = all(locate(M, caplen + b) is not None for b in bs)
         top = locate(M, caplen)
@@ -705,6 +851,33 @@ class EditSpec(Spec):
         return self.conv(key)
 
 
+def prehistory(case, caption, text, mask):
+    """What the process did before the widget under test existed: urwid.set_encoding() is public, global and may
+    be called at any time, so the very same caption / text (for bytes: the same bytes, which are other characters
+    of other widths there) may have been shown and edited with the same keys and clicks at the same width under
+    another encoding.  Nothing is asserted about this phase (the bytes need not be well-formed text there) and
+    whatever it raises is ignored; the widget and its canvases stay referenced while the real case runs.  What the
+    library remembered from it must not leak into the case proper."""
+    widths.use_encoding(case["prior"])
+    size = (case["width"],)
+    kept = []
+    try:
+        old = urwid.Edit(caption, text, multiline=case["multiline"], align=case["align"], wrap=case["wrap"],
+                         allow_tab=case["allow_tab"], mask=mask)
+        kept.append(old)
+        kept.append(old.render(size, focus=True))
+        old.get_cursor_coords(size)
+        for op in case["ops"]:
+            if op[0] == "k":
+                old.keypress(size, op[1])
+            else:
+                old.mouse_event(size, "mouse press", 1, op[1] * case["width"] // 100, op[2] * old.rows(size, True) // 100, True)
+            kept.append(old.render(size, focus=True))
+    except Exception:  # noqa: BLE001 - not under test
+        pass
+    return kept
+
+
 def check_edit(case):
     enc = case["encoding"]
     mode = widths.use_encoding(enc)
@@ -717,6 +890,10 @@ def check_edit(case):
         pos = bs[case["pos"] % len(bs)]
     with warnings.catch_warnings():
         warnings.simplefilter("ignore")
+        before = None
+        if case.get("prior") not in (None, enc):
+            before = prehistory(case, caption, text, mask)
+            mode = widths.use_encoding(enc)
         edit = urwid.Edit(caption, text, multiline=case["multiline"], align=case["align"], wrap=case["wrap"],
                           allow_tab=case["allow_tab"], edit_pos=pos, mask=mask)
         if edit.edit_text != text or edit.edit_pos != (len(text) if pos is None else pos):
@@ -822,6 +999,15 @@ _listener = st.fixed_dictionaries({
     "user_arg": st.one_of(st.none(), st.none(), st.sampled_from(ARG_VALUES)),
     "mutate_after": st.booleans(),
     "returns": st.sampled_from([None, None, True, False, 0, "x"]),
+    # a handler may change the handler list that is being walked: one listener in three does so from inside its
+    # 1st..3rd call - it disconnects itself (a one-shot listener) or another listener, by key or by arguments,
+    # or connects a further listener
+    "reentry": st.one_of(st.none(), st.none(), st.fixed_dictionaries({
+        "at": st.integers(1, 3),
+        "do": st.sampled_from(["disconnect", "disconnect", "disconnect", "connect"]),
+        "how": st.sampled_from(["key", "args"]),
+        "target": st.one_of(st.none(), st.none(), st.integers(0, 2)),
+    })),
 })
 # besides the plain listener every case has, 0..3 more, connected in the other documented ways
 _listeners = st.lists(_listener, max_size=3)
@@ -854,6 +1040,8 @@ def edit_cases(draw, max_ops):
         "pos": draw(st.one_of(st.none(), st.integers(0, 30))),
         "ops": ops,
         "listeners": draw(_listeners),
+        # two cases in five: the same widget description was used under another encoding earlier in the process
+        "prior": draw(st.one_of(st.none(), st.none(), st.none(), st.sampled_from(ENCODINGS), st.sampled_from(ENCODINGS))),
     }
 
 
@@ -925,6 +1113,14 @@ def _listener_classes(case):
                 out.append("listener:user_args list changed after connecting")
         if d["user_arg"] is not None:
             out.append("listener:deprecated user_arg" + ("" if d["user_arg"] else " falsy"))
+        r = d.get("reentry")
+        if r:
+            if r["do"] == "connect":
+                out.append("listener:connects a listener inside its handler")
+            else:
+                n = len(case["listeners"])
+                itself = r["target"] is None or case["listeners"][r["target"] % n] is d
+                out.append(f"listener:disconnects {'itself' if itself else 'another listener'} inside its handler ({r['how']})")
     return sorted(set(out))
 
 
@@ -944,6 +1140,8 @@ def _edit_classes(case):
         out.append("edit:click")
     if any(o[0] == "k" and o[1] in ("up", "down") for o in case["ops"]):
         out.append("edit:vertical")
+    if case.get("prior") not in (None, case["encoding"]):
+        out.append(f"edit:after the same {'bytes' if case['bytes'] else 'str'} case under another encoding")
     return out + _listener_classes(case)
 
 
@@ -966,11 +1164,12 @@ def _num_classes(case):
 
 
 def shard(ctx):
-    max_ops = ctx.scale(40, 80)
-    ctx.given("edit", edit_cases(max_ops), ctx.scale(800, 10000), nontrivial=_edit_nontrivial, classify=_edit_classes)
+    # the small campaign first: should the budget run out (overloaded machine), both sub-checks have still run
+    ctx.given("numeric", numeric_cases(ctx.scale(30, 60)), ctx.scale(250, 4000), nontrivial=_num_nontrivial,
+              classify=_num_classes)
     if ctx.failure is None:
-        ctx.given("numeric", numeric_cases(ctx.scale(30, 60)), ctx.scale(250, 4000), nontrivial=_num_nontrivial,
-                  classify=_num_classes)
+        max_ops = ctx.scale(40, 80)
+        ctx.given("edit", edit_cases(max_ops), ctx.scale(800, 10000), nontrivial=_edit_nontrivial, classify=_edit_classes)
 
 
 # ---------------------------------------------------------------------------------------------
